@@ -167,7 +167,18 @@ func (e *Executor) Execute(ctx context.Context, typ Type, source interface{}, qu
 		)
 	}
 
-	e.scheduler.Run(executeWorkUnit, initialSelectionWorkUnits...)
+	if query.Kind == "mutation" {
+		// The top-level fields of a mutation run one after the other, in the
+		// order of the query, each to completion before the next starts.
+		for _, unit := range initialSelectionWorkUnits {
+			e.scheduler.Run(executeWorkUnit, unit)
+			if topLevelRespWriter.errRecorder.err != nil {
+				break
+			}
+		}
+	} else {
+		e.scheduler.Run(executeWorkUnit, initialSelectionWorkUnits...)
+	}
 
 	if topLevelRespWriter.errRecorder.err != nil {
 		return nil, topLevelRespWriter.errRecorder.err
